@@ -1290,8 +1290,11 @@ class Surface(SplineGeometry):
 
     @degree.setter
     def degree(self, value):
-        if not isinstance(value, (list, tuple)):
+        if not isinstance(value, (list, tuple)) or len(value) != self.pdimension:
             raise ValueError("Please input a list with a length of " + str(self.pdimension))
+        # Validate the whole request first: a request which is refused leaves all the degrees as they are
+        if any(int(val) <= 0 for val in value):
+            raise ValueError("Degree cannot be less than zero")
         self.degree_u = value[0]
         self.degree_v = value[1]
 
@@ -1353,8 +1356,14 @@ class Surface(SplineGeometry):
 
     @knotvector.setter
     def knotvector(self, value):
-        if not isinstance(value, (list, tuple)):
+        if not isinstance(value, (list, tuple)) or len(value) != self.pdimension:
             raise ValueError("Please input a list with a length of " + str(self.pdimension))
+        # Validate the whole request first: a request which is refused leaves all the knot vectors as they are
+        for deg, kv, size in zip(self._degree, value, self._control_points_size):
+            if deg == 0 or size == 0:
+                raise ValueError("Set degree and control points first")
+            if not knotvector.check(deg, kv, size):
+                raise ValueError("Input is not a valid knot vector")
         self.knotvector_u = value[0]
         self.knotvector_v = value[1]
 
@@ -2297,8 +2306,11 @@ class Volume(SplineGeometry):
 
     @degree.setter
     def degree(self, value):
-        if not isinstance(value, (list, tuple)):
+        if not isinstance(value, (list, tuple)) or len(value) != self.pdimension:
             raise ValueError("Please input a list with a length of " + str(self.pdimension))
+        # Validate the whole request first: a request which is refused leaves all the degrees as they are
+        if any(int(val) <= 0 for val in value):
+            raise ValueError("Degree cannot be less than zero")
         self.degree_u = value[0]
         self.degree_v = value[1]
         self.degree_w = value[2]
@@ -2384,8 +2396,14 @@ class Volume(SplineGeometry):
 
     @knotvector.setter
     def knotvector(self, value):
-        if not isinstance(value, (list, tuple)):
+        if not isinstance(value, (list, tuple)) or len(value) != self.pdimension:
             raise ValueError("Please input a list with a length of " + str(self.pdimension))
+        # Validate the whole request first: a request which is refused leaves all the knot vectors as they are
+        for deg, kv, size in zip(self._degree, value, self._control_points_size):
+            if deg == 0 or size == 0:
+                raise ValueError("Set degree and control points first")
+            if not knotvector.check(deg, kv, size):
+                raise ValueError("Input is not a valid knot vector")
         self.knotvector_u = value[0]
         self.knotvector_v = value[1]
         self.knotvector_w = value[2]
